@@ -1,6 +1,176 @@
-//! C05 — every dial attempt ends in exactly one outcome and never wedges the peer (oracles `c05/*` of the manager model).
-use crate::report::Ctx;
+//! C05 — every dial attempt ends in exactly one outcome and never wedges the peer (oracles `c05/*` of the manager model),
+//! plus one scenario on the real `TcpTransport` (E4) for the part of the path the scripted transport replaces.
+use crate::{
+    env::simnet::{NodeCmd, NodeLog, World},
+    mc::e1::{panic_site, take_panic},
+    report::{Ctx, Violation},
+    util,
+};
+use litep2p::config::ConfigBuilder;
+use serde_json::json;
+use std::{
+    panic::{catch_unwind, AssertUnwindSafe},
+    time::Duration,
+};
 
 pub fn run(ctx: &mut Ctx) {
     super::manager::run_filtered(ctx, "c05");
+    // the runtime seed fixes the branch order of every `tokio::select!` in the node's event loop: enumerate a few
+    for seed in 1..=12u64 {
+        concurrent_dials_one_cancelled_on_real_tcp(ctx, true, seed);
+    }
+    concurrent_dials_one_cancelled_on_real_tcp(ctx, false, 1);
+}
+
+/// Two dials by peer id in flight on a real `TcpTransport` (the dialed sockets take the TCP connection but never answer
+/// the handshake); peer A then connects to the node on its own, so the dial towards A is cancelled; the socket dialed
+/// for B goes away, so the dial towards B fails. With `both_in_one_poll` the node's event loop is not polled between
+/// the two (a busy application), so the transport sees the cancellation and B's failure in the same poll.
+/// Every accepted dial must end in exactly one outcome: B's failure is reported once, A is connected once, and B can be
+/// dialed again.
+fn concurrent_dials_one_cancelled_on_real_tcp(ctx: &mut Ctx, both_in_one_poll: bool, seed: u64) {
+    let result = std::thread::spawn(move || -> Result<String, (String, String)> {
+        let rt = crate::env::driver::runtime_io(seed);
+        let r = catch_unwind(AssertUnwindSafe(|| {
+            rt.block_on(async {
+                let (_park_tx, park_rx) = std::sync::mpsc::channel::<()>();
+                let _parked = tokio::task::spawn_blocking(move || {
+                    let _ = park_rx.recv();
+                });
+                let mut w = World::new();
+                // a user protocol on each node keeps the A<->node connection up (a connection nobody holds closes at once,
+                // and that closure would poll the node again)
+                let mut handles = Vec::new();
+                let mut mk = || {
+                    let (m, h) = crate::env::node::Monitor::new("/verif/x/1");
+                    handles.push(h);
+                    ConfigBuilder::new().with_user_protocol(m).with_keep_alive_timeout(Duration::from_secs(100_000))
+                };
+                let l = w.add_tcp_node(51, mk()).expect("tcp node");
+                let a = w.add_tcp_node(52, mk()).expect("tcp node");
+                async fn settle(w: &mut World) {
+                    loop {
+                        w.run_to_quiescence(1_000_000);
+                        if !crate::mc::e2::settle_io(w).await {
+                            break;
+                        }
+                    }
+                }
+                settle(&mut w).await;
+                let peer_a = w.nodes[a].peer;
+                let peer_b = util::peer(5353);
+                // sockets that take connections (kernel backlog) and never speak
+                let sock_a = std::net::TcpListener::bind("127.0.0.1:0").map_err(|e| ("machinery/tcp-setup".to_string(), e.to_string()))?;
+                let sock_b = std::net::TcpListener::bind("127.0.0.1:0").map_err(|e| ("machinery/tcp-setup".to_string(), e.to_string()))?;
+                let addr = |port: u16, p: litep2p::PeerId| -> multiaddr::Multiaddr {
+                    format!("/ip4/127.0.0.1/tcp/{port}").parse::<multiaddr::Multiaddr>().unwrap().with(multiaddr::Protocol::P2p(p.into()))
+                };
+                let addr_b = addr(sock_b.local_addr().unwrap().port(), peer_b);
+                let _ = w.nodes[l].cmd.send(NodeCmd::AddKnown(peer_a, addr(sock_a.local_addr().unwrap().port(), peer_a)));
+                let _ = w.nodes[l].cmd.send(NodeCmd::AddKnown(peer_b, addr_b));
+                settle(&mut w).await;
+                let _ = w.nodes[l].cmd.send(NodeCmd::Dial(peer_a));
+                let _ = w.nodes[l].cmd.send(NodeCmd::Dial(peer_b));
+                settle(&mut w).await;
+                let short = |w: &World| -> Vec<String> {
+                    w.nodes[l]
+                        .log
+                        .lock()
+                        .iter()
+                        .map(|e| match e {
+                            NodeLog::Event(s) => s.chars().take(110).collect(),
+                            NodeLog::DialResult(p, r) => format!("dial({}) -> {r:?}", if *p == peer_a { "A" } else { "B" }),
+                        })
+                        .collect()
+                };
+                let dials_ok = w.nodes[l].log.lock().iter().filter(|e| matches!(e, NodeLog::DialResult(_, Ok(())))).count();
+                if dials_ok != 2 {
+                    return Err(("machinery/tcp-setup".to_string(), format!("the two dials were not accepted: {:?}", short(&w))));
+                }
+                // A connects to the node on its own: the node reports it (and cancels its own dial towards A). With
+                // `both_in_one_poll` the application is busy after that event, so the node is not polled again until
+                // the socket dialed for B has gone away
+                let hold = w.nodes[l].hold_after_event.clone();
+                if both_in_one_poll {
+                    hold.0.store(true, std::sync::atomic::Ordering::SeqCst);
+                }
+                let _ = w.nodes[a].cmd.send(NodeCmd::DialAddress(w.nodes[l].address.clone()));
+                settle(&mut w).await;
+                // accept-and-drop, then drop the listener: the dialer's socket sees the peer go away
+                sock_b.set_nonblocking(true).ok();
+                while let Ok((s, _)) = sock_b.accept() {
+                    drop(s);
+                }
+                drop(sock_b);
+                settle(&mut w).await;
+                hold.0.store(false, std::sync::atomic::Ordering::SeqCst);
+                hold.1.notify_one();
+                settle(&mut w).await;
+                if std::env::var_os("VERIF_C05_TRACE").is_some() {
+                    eprintln!("[c05-tcp] right after release: {:?}", short(&w));
+                }
+                // some time, well below every timer that would poll the node again (connection open timeout 10 s..)
+                for _ in 0..3 {
+                    tokio::time::advance(Duration::from_secs(1)).await;
+                    settle(&mut w).await;
+                }
+                let log = short(&w);
+                let b_text = peer_b.to_string();
+                let a_text = peer_a.to_string();
+                let b_failures = log.iter().filter(|s| (s.starts_with("DialFailure") || s.starts_with("OpenFailure")) && (s.contains(&b_text) || s.starts_with("OpenFailure"))).count();
+                let a_established = log.iter().filter(|s| s.starts_with("ConnectionEstablished") && s.contains(&a_text)).count();
+                let desc = format!("both_in_one_poll={both_in_one_poll} runtime_seed={seed}; node log {log:?}");
+                if a_established != 1 {
+                    return Err(("c05/tcp/inbound-connection-not-reported".to_string(), format!("A connected to the node but ConnectionEstablished(A) was reported {a_established} times; {desc}")));
+                }
+                if b_failures != 1 {
+                    return Err((
+                        "c05/tcp/no-outcome/dial-failed-while-another-dial-was-cancelled".to_string(),
+                        format!("the dial towards B (its socket went away) must end in exactly one failure report, saw {b_failures}, 3 s later; {desc}"),
+                    ));
+                }
+                // B can be dialed again (refused now): one more failure
+                let _ = w.nodes[l].cmd.send(NodeCmd::Dial(peer_b));
+                for _ in 0..3 {
+                    settle(&mut w).await;
+                    tokio::time::advance(Duration::from_secs(1)).await;
+                }
+                settle(&mut w).await;
+                let log2 = short(&w);
+                let redial = log2.iter().rev().find(|s| s.starts_with("dial(B)")).cloned().unwrap_or_default();
+                let failures2 = log2.iter().filter(|s| s.starts_with("DialFailure") || s.starts_with("OpenFailure")).count();
+                if !redial.contains("Ok") || failures2 != 2 {
+                    return Err((
+                        "c05/tcp/wedged-after-failure".to_string(),
+                        format!("after its failure B must be dialable again and that attempt must get its own outcome: redial {redial:?}, failure reports {failures2}; node log {log2:?}"),
+                    ));
+                }
+                Ok(desc)
+            })
+        }));
+        match r {
+            Ok(x) => x,
+            Err(_) => {
+                let msg = take_panic();
+                Err((format!("panic/{}", panic_site(&msg)), format!("panic in the concurrent-dials TCP scenario: {msg}")))
+            }
+        }
+    })
+    .join();
+    let replay = json!({"kind": "concurrent-dials-one-cancelled-on-real-tcp", "both_in_one_poll": both_in_one_poll, "runtime_seed": seed});
+    match result {
+        Ok(Ok(desc)) => {
+            if std::env::var_os("VERIF_C05_TRACE").is_some() {
+                eprintln!("[c05-tcp] {desc}");
+            }
+            ctx.cov_add("traces_validated_against_impl", 1);
+            ctx.cov_add("tcp_concurrent_dial_scenarios", 1);
+            if both_in_one_poll {
+                ctx.sample(json!({"case": replay, "observed": desc.chars().take(700).collect::<String>()}));
+            }
+        }
+        Ok(Err((sig, what))) if sig.starts_with("machinery/") => ctx.machinery_error(format!("{sig}: {what}")),
+        Ok(Err((sig, what))) => ctx.violation(Violation { signature: sig, what, replay }),
+        Err(_) => ctx.machinery_error("concurrent-dials TCP scenario: harness thread panicked outside the guarded region"),
+    }
 }
